@@ -192,6 +192,17 @@ def rebin_concrete(ctx):
     return True
 
 
+def _from_front(p, label, n):
+    """on an axis of n positions, x[-c] is x[n - c]: one spelling for the positions of the grid"""
+    def f(a):
+        if a[0] == 'fn' and a[1] == 'at' and len(a) == 4 and a[2][0] == 'B' and a[2][1] == label and a[3][0] == 'P':
+            ix = Poly.from_key(a[3][1])
+            if ix.is_const() and ix.const_value().denominator == 1 and -n <= ix.const_value() < 0:
+                return Poly.atom(('fn', 'at', a[2], ('P', (ix + n).key())))
+        return None
+    return alg.rebuild(p, f)
+
+
 def _rebin_bins(n, resp, results):
     Hz = sym('unit:Hz')
     half = Poly.const(Fraction(1, 2))
@@ -203,7 +214,7 @@ def _rebin_bins(n, resp, results):
     for k in range(n):
         e1 = x[0] if k == 0 else half * (x[k - 1] + x[k])
         e2 = x[n - 1] if k == n - 1 else half * (x[k] + x[k + 1])
-        rk = alg.index_at(resp.poly, N, Poly.const(k))
+        rk = _from_front(alg.index_at(resp.poly, N, Poly.const(k)), N, n)
         pos = 'first' if k == 0 else ('last' if k == n - 1 else 'interior')
         n_ord, bad, left = 0, [], set()
         for ranks in alg.weak_orderings(5):          # e1, e2, x_k, F0, FN
@@ -416,7 +427,8 @@ class _GridHooks(Hooks):
 
     def simplify(self, p):
         ca = count_atom(N)
-        return self.facts.simplify(alg.rebuild(p, lambda a: Poly.const(self.n) if a == ca else None))          # the grid has n samples
+        p = _from_front(alg.rebuild(p, lambda a: Poly.const(self.n) if a == ca else None), N, self.n)          # the grid has n samples: x[-c] is x[n - c]
+        return self.facts.simplify(p)
 
     def decide(self, interp, test, env, mod):
         return decide_with(interp, test, env, mod, facts=self)
@@ -424,15 +436,24 @@ class _GridHooks(Hooks):
     def external(self, interp, name, args, kwargs, node, mod):
         if name.endswith('.searchsorted') and len(args) == 2 and set(kwargs) <= {'side'}:
             a, v = interp._as_arr(args[0]), interp._as_arr(args[1])
-            if isinstance(a, Arr) and a.ndim == 1 and a.mask is None and a.dims[0] in interp.axis_len and isinstance(v, Arr) and v.ndim == 0:
-                right, tot = kwargs.get('side') == 'right', 0
-                for j in range(interp.axis_len[a.dims[0]]):
-                    e_ = alg.index_at(a.poly, a.dims[0], Poly.const(j))
-                    b = self.simplify((Poly.const(1) - lt(v.poly, e_)) if right else lt(e_, v.poly))
-                    if not b.is_const():
-                        return NotImplemented
-                    tot += int(b.const_value())
-                return tot
+            if isinstance(a, Arr) and a.ndim == 1 and a.mask is None and a.dims[0] in interp.axis_len and isinstance(v, Arr) and v.mask is None \
+                    and (v.ndim == 0 or v.ndim == 1 and v.dims[0] in interp.axis_len):
+                right = kwargs.get('side') == 'right'
+                outs = []
+                for vp in ([v.poly] if v.ndim == 0 else [alg.index_at(v.poly, v.dims[0], Poly.const(k_)) for k_ in range(interp.axis_len[v.dims[0]])]):
+                    tot = 0
+                    for j in range(interp.axis_len[a.dims[0]]):
+                        e_ = alg.index_at(a.poly, a.dims[0], Poly.const(j))
+                        b = self.simplify((Poly.const(1) - lt(vp, e_)) if right else lt(e_, vp))
+                        if not b.is_const():
+                            return NotImplemented
+                        tot += int(b.const_value())
+                    outs.append(tot)
+                if v.ndim == 0:
+                    return outs[0]
+                r_ = interp._from_elems(v, [Poly.const(t_) for t_ in outs])          # several requests at once: their positions, as an array over the requests' axis
+                r_.unit, r_.dt = num(1), 'i'
+                return r_
         return NotImplemented
 
 
@@ -513,6 +534,19 @@ def integrate_subset_by_value(ctx, n=4):
                         got = hk.simplify(expand(hk.simplify(out.poly)))
                     except (RecursionError, ZeroDivisionError):
                         return False
+                    if not knots.closed_form(got):
+                        # library look-ups left standing (np.interp on the grid, searchsorted): unfolded to the segment the ordering of the case puts them in
+                        try:
+                            Rg = knots.Region(None, sym('x', N), N, n, requests=[(sym('unused-request'), 'above', n - 1)])
+                            Rg.val = dict(facts.val)
+                            got = hk.simplify(Rg.simplify(got))
+                        except (RecursionError, ZeroDivisionError, ValueError):
+                            return False
+                        if Rg.oob:
+                            ncase += 1
+                            bad.append('grid stored in %s order, first limit %s, second limit %s (samples numbered by increasing abscissa): reads position %d of a grid of %d samples (IndexError)'
+                                       % ('decreasing' if decreasing else 'increasing', name(ka, ja), name(kb, jb), Rg.oob[0], n))
+                            continue
                     if not knots.closed_form(got):
                         return False
                     # the definition
@@ -835,10 +869,13 @@ MUST_FIRE = [
     ('clip removed on the upper edge', [(FI, "            nu2 = min(max(nu2, self_nu_min), self_nu_max)\n", "")]),
     ('clip bounds not order-normalised (D15 reverted)', [(FI, "self_nu_min = min(self_nu_hz[0], self_nu_hz[-1])", "self_nu_min = self_nu_hz[0]"), (FI, "self_nu_max = max(self_nu_hz[0], self_nu_hz[-1])", "self_nu_max = self_nu_hz[-1]")]),
     ('abs removed from normalize', [(FI, "self.response = self.response / np.abs(integrate(self.nu.to(u.Hz).value, self.response))", "self.response = self.response / integrate(self.nu.to(u.Hz).value, self.response)")]),
+    ('integrate_subset hands (y, x) to integrate', [(IN, "    return integrate(x, y)", "    return integrate(y, x)")]),
+    ('interp1d_fast refuses the last sample of its pair', [('sedfitter/utils/interpolate.py', "if xval < x[0] or xval > x[-1]:", "if xval < x[0] or xval >= x[-1]:")]),
+    ('upper end value taken from the first sample', [(IN, "        ymax = y[-1]", "        ymax = y[0]")]),
+    ('interior slice one sample short', [(IN, "    x = np.hstack([xmin, x[i1:i2], xmax])\n    y = np.hstack([ymin, y[i1:i2], ymax])", "    x = np.hstack([xmin, x[i1:i2 - 1], xmax])\n    y = np.hstack([ymin, y[i1:i2 - 1], ymax])")]),
     ('half removed from integrate', [(IN, "integrals = 0.5 * (x[1:] - x[:-1]) * (y[1:] + y[:-1])", "integrals = (x[1:] - x[:-1]) * (y[1:] + y[:-1])")]),
     ('y[1:] - y[:-1]', [(IN, "integrals = 0.5 * (x[1:] - x[:-1]) * (y[1:] + y[:-1])", "integrals = 0.5 * (x[1:] - x[:-1]) * (y[1:] - y[:-1])")]),
     ('error = sum E*R', [(CV, "fluxes[i].error[im] = np.sqrt(np.sum((s.error * f.response) ** 2, axis=1))", "fluxes[i].error[im] = np.sum(s.error * f.response, axis=1)")]),
-    ('i1 = 0', [(IN, "        i1 = 1\n", "        i1 = 0\n")]),
     ('i2 = -2 (D16 reverted)', [(IN, "        i2 = -1\n", "        i2 = -2\n")]),
     ('driver 2 error from val (D5 reverted)', [(CV, "sed_unc = sed_cube.unc[:, i_ap, :]", "sed_unc = sed_cube.val[:, i_ap, :]")]),
     ('last bin ends at the midpoint', [(FI, "nu2 = nu_new_hz[-1]", "nu2 = 0.5 * (nu_new_hz[-1] + nu_new_hz[-2])")]),
@@ -851,7 +888,29 @@ MUST_FIRE = [
     ('driver 2 flux from squared values', [(CV, "fluxes[i].flux[:, i_ap] = np.sum(sed_val * response, axis=1).to(u.mJy)", "fluxes[i].flux[:, i_ap] = np.sum(sed_val * response ** 2, axis=1).to(u.mJy)")]),
     ('response stored at the previous bin', [(FI, "f.response[i] = integrate_subset", "f.response[i - 1] = integrate_subset")]),
 ]
+_ENDS_OLD = """    if xmin == x[0]:
+        i1 = 1
+        ymin = y[0]
+    else:
+        i1 = np.searchsorted(x, xmin)
+        ymin = interp1d_fast(x[i1 - 1:i1 + 1], y[i1 - 1:i1 + 1], xmin)
+
+    if xmax == x[-1]:
+        i2 = -1
+        ymax = y[-1]
+    else:
+        i2 = np.searchsorted(x, xmax)
+        ymax = interp1d_fast(x[i2 - 1:i2 + 1], y[i2 - 1:i2 + 1], xmax)
+"""
+_ENDS_INTERP = """    ymin, ymax = np.interp([xmin, xmax], x, y)
+    i1 = np.searchsorted(x, xmin, side='right')
+    i2 = np.searchsorted(x, xmax, side='left')
+"""
+
 MUST_SILENT = [
+    # listed as must-fire while integrate_subset was judged by its layout ("a sample is duplicated"): by value the duplicate of the first sample is a chunk of zero width
+    ('i1 = 0: the first sample twice, a chunk of no width', [(IN, "        i1 = 1\n", "        i1 = 0\n")]),
+    ('end values through np.interp on the order-normalised grid, strict interior by searchsorted sides', [(IN, _ENDS_OLD, _ENDS_INTERP)]),
     ('bin edges as one clipped array, every bin visited', [('sedfitter/filter/filter.py', '        for i in range(len(f.response)):\n\n            if i == 0:\n                nu1 = nu_new_hz[0]\n            else:\n                nu1 = 0.5 * (nu_new_hz[i - 1] + nu_new_hz[i])\n\n            if i == len(nu_new_hz) - 1:\n                nu2 = nu_new_hz[-1]\n            else:\n                nu2 = 0.5 * (nu_new_hz[i] + nu_new_hz[i + 1])\n\n            nu1 = min(max(nu1, self_nu_min), self_nu_max)\n            nu2 = min(max(nu2, self_nu_min), self_nu_max)\n\n', '        edges = np.hstack([nu_new_hz[0], 0.5 * (nu_new_hz[:-1] + nu_new_hz[1:]), nu_new_hz[-1]])\n        edges = np.clip(edges, self_nu_min, self_nu_max)\n        for i in range(len(f.response)):\n\n            nu1, nu2 = edges[i], edges[i + 1]\n\n')]),
     ('grid compared with np.array_equal', [(CV, "        try:\n            assert binned_nu is not None\n            np.testing.assert_array_almost_equal_nulp(s.nu.value, binned_nu.value, 100)\n        except (ValueError, AssertionError):\n", "        if binned_nu is None or not np.array_equal(s.nu.value, binned_nu.value):\n")]),
     ('grid compared with shape and np.all(==)', [(CV, "        try:\n            assert binned_nu is not None\n            np.testing.assert_array_almost_equal_nulp(s.nu.value, binned_nu.value, 100)\n        except (ValueError, AssertionError):\n", "        if binned_nu is None or s.nu.shape != binned_nu.shape or not np.all(s.nu == binned_nu):\n")]),
